@@ -823,7 +823,7 @@ Qed.
 
 Lemma apply_good s o : Good s -> plain o = true -> Good (fst (apply s o)).
 Proof.
-  intros Hg Hp. destruct o as [|f t d|e f t d|e|n|n|e|l]; try discriminate Hp.
+  intros Hg Hp. destruct o as [|f t d|e f t d|e|n|n|e|l|]; try discriminate Hp.
   - apply create_node_good. assumption.
   - cbn [apply]. apply create_edge_op_good. assumption.
   - cbn [apply]. destruct (get_edge s e) as [r|] eqn:He; cbn [fst]; [|assumption].
@@ -843,6 +843,7 @@ Proof.
   - cbn [apply]. destruct (get_edge s e); assumption.
   - cbn [apply]. unfold batch_create. destruct (batch_missing s l); cbn [fst]; [assumption|].
     apply batch_fold_good. assumption.
+  - cbn [apply fst]. assumption.
 Qed.
 
 (* the sequential theorem: Consistent is an invariant of every operation sequence from the empty graph *)
